@@ -8,6 +8,7 @@ package helper
 func Last[T any](c <-chan T, count int) <-chan T {
 	result := make(chan T, cap(c))
 
+	VerifStage("Last", count, []any{c}, []any{result})
 	go func() {
 		defer close(result)
 
